@@ -433,6 +433,21 @@ def do_replay(pid, spec, path):
         print(dout)
         return 0 if rc == 0 else 1
     comp = gen[0]
+    if comp in ("live", "flavour", "bloomfp"):
+        # implementation-vs-oracle tests judge themselves: re-run and read the verdict
+        if "--out" in gen:
+            k = gen.index("--out"); del gen[k:k + 2]
+        rc, out = sh([TRACEGEN] + gen, timeout=1800)
+        print(out)
+        bad = re.search(r"violations=([1-9]\d*)|mismatches=([1-9]\d*)|false_neg=([1-9]\d*)", out)
+        if comp == "bloomfp":
+            o = next((o for o in spec.get("oracles", []) if "bloom" in o["name"] or "fp" in o["name"]), None)
+            if o:
+                res = o["run"]("quick", int(gen[gen.index("--seed") + 1]) if "--seed" in gen else 1, TRACEGEN, sh)
+                for m in res["failures"]:
+                    print(m)
+                return 1 if res["failures"] else 0
+        return 1 if (bad or rc != 0) else 0
     job = next((j for j in spec["jobs"] if j["gen"]("quick", 0)[0] == comp), spec["jobs"][0])
     if comp == "replay-cache":
         job = {"driver": "cache"}
